@@ -23,7 +23,8 @@ SHAPES = [''.join(c) for k in range(4) for c in itertools.combinations('prx', k)
 def eval_program(arg) -> dict:
     seed, stream, scratch, tier = arg
     common.import_dznpy()
-    prog, case, _rng = progrun.make_program(PROP, seed, stream, scratch, stream % 4 == 2)
+    prog, case, _rng = progrun.make_program(PROP, seed, stream, scratch, stream % 4 == 2,
+                                            mc_shape=stream // 4)
     # alternate the origin deterministically so that both are covered in every run
     prog.enc['origin'] = 'create' if stream % 2 == 0 else 'import'
     if stream % 4 == 1:
